@@ -6,7 +6,7 @@ HOOKS = {
     "source_commits": [],
     "add_only": True,
 }
-NOTES = ("Every check = proof gate (lake build, forbidden-token scan, #print axioms of the property theorems; for C01 C02 C03 C04 C08 C10 C11 C12 C17 also "
+NOTES = ("Every check = proof gate (lake build, forbidden-token scan, #print axioms of the property theorems; for C01 C02 C03 C04 C08 C10 C11 C12 C15 C17 also "
          "the generated-model gate: re-translation of the Python sources by tools/py2lean.py and re-check of BBProofs/GenEq.lean) + correspondence "
          "(real bblean from /repo vs the compiled Lean model on the same histories) + direct oracle search; see DESIGN.md §2.2. "
          "Fix commits in /repo: see known_findings.json.")
@@ -254,11 +254,12 @@ CLAIMS = {
                 "labelling), C15_centroids, C15_outdir / _run / _refused (non-empty directory: refused and untouched without overwrite; with "
                 "overwrite the listing afterwards is exactly the new outputs, no duplicates, centroid/tree files iff requested), "
                 "C15_multi_equals_api, C15_total_multi, C15_multi_partition. Correspondence: the real commands vs the API following the "
-                "model's plan vs the model.",
+                "model's plan vs the model."
+                + GEN.format(src="cli._validate_output_dir (the directory as an opaque parameter: exists / is_dir / any(iterdir) are inputs, rmtree and mkdir recorded effects; theorem gen_validate in BBProofs/GenEq5.lean)", prop="C15"),
         "note": TB + "PARTIAL: typer option parsing, pickle/.npy encoding, symlinks/copies, the monitor daemon and console output are exercised by "
                 "the suite, not modelled; --bb-variant, --max-fps, --max-files (hidden debug options) are out of scope. 'Monitor on/off does not "
                 "change the clusters' is exercised (subprocess runs with the monitor on are compared with the API). Fixed defects: "
                 "--overwrite removed the directory itself, --save-tree called a missing method (known_findings.json).",
-        "technique": "Lean 4 theorems over executable model + differential correspondence with the real commands",
+        "technique": TGEN,
     },
 }
